@@ -2,6 +2,7 @@ package props
 
 import (
 	"bytes"
+	"errors"
 	"fmt"
 	"io"
 	"sync"
@@ -328,8 +329,42 @@ func (s *countSink) Write(p []byte) (int, error) {
 
 var writeScratch []byte
 
-// produceFrame runs the Writer. Any error or panic is reported through err.
+// writerHung: a free-running concurrent Writer did not return in this worker.
+var writerHung bool
+
+// produceFrame runs the Writer. Any error or panic is reported through err. A concurrent Writer
+// runs real goroutines outside the controlled scheduler: its calls (milliseconds) get the same
+// watchdog as the free-running Readers (30 s, then 120 s more), so that a Writer that blocks makes
+// the check report instead of keeping it from ending; which schedules block is decided in C08.
 func produceFrame(o wopts, input []byte, d delivery) (frame []byte, err error) {
+	if o.Conc == 1 || Flavour == "sched" {
+		return produceFrame1(o, input, d)
+	}
+	if writerHung {
+		return nil, errors.New("a call does not return (free-running concurrent Writer; further cases of this worker not run)")
+	}
+	type res struct {
+		f []byte
+		e error
+	}
+	done := make(chan res, 1)
+	in := input
+	go func() { f, e := produceFrame1(o, in, d); done <- res{f, e} }()
+	select {
+	case r := <-done:
+		return r.f, r.e
+	case <-time.After(watchdog):
+	}
+	select {
+	case r := <-done:
+		return r.f, r.e
+	case <-time.After(4 * watchdog):
+	}
+	writerHung = true
+	return nil, errors.New("a call does not return (free-running concurrent Writer; further cases of this worker not run)")
+}
+
+func produceFrame1(o wopts, input []byte, d delivery) (frame []byte, err error) {
 	defer func() {
 		if r := recover(); r != nil {
 			err = fmt.Errorf("panic: %v", r)
